@@ -207,6 +207,17 @@ def run(ctx):
             if bad:
                 res.find(key, "%s:%d" % (e["file"], e["ln"]), "lexer enum %s is parsed case-insensitively (%s): an identifier that merely resembles a keyword in another case is no longer kept as an identifier with its spelling" % (e["name"], bad[0]), "a gate named `Measure` or a region named `Add`")
     res.count("lexer_keyword_enums", nenum, floor=4)
+    # text is handled as `str` / `char`: nothing on the parse paths turns a single byte into a char (`b as char`,
+    # char::from(b)), which re-encodes every non-ASCII character of a name or quoted string
+    from qv.props.common import byte_to_char_sites
+
+    key = "K6|byte-to-char-conversion"
+    scanned = [f for f in db.fns if not f.is_derived() and (f.dp in local or f.path.startswith("quil_rs::parser::"))]
+    nscan = len(scanned)
+    hits = byte_to_char_sites(db, scanned)
+    res.site(key, True, {"functions_scanned": nscan, "conversions": [h[0].path for h in hits], "verdict": "ok" if not hits else "VIOLATION"})
+    if hits:
+        res.find(key, hits[0][0].loc(hits[0][1]), "%s builds a char from a single byte / code unit (%s) on a parse path: every non-ASCII character of the text is re-encoded" % (hits[0][0].path.replace("quil_rs::", ""), hits[0][2]), "`DEFFRAME 0 \"µw_drive\"` is stored as the frame `Âµw_drive`")
     res.count("reachable_local_functions", len(local), floor=300)
     res.explanation = (
         "Taint analysis on MIR: %d calls to case-mapping / normalising std functions exist in the crate, %d of them in the %d parse-reachable functions; "
